@@ -452,6 +452,17 @@ func (o *ObjectSchema) Validate(data any) error {
 }
 
 func (o *ObjectSchema) applySubObjectDefaultValues(propertyID string, property *PropertySchema, rawData map[string]any) {
+	o.applySubObjectDefaultValuesOnce(propertyID, property, rawData, map[Object]bool{})
+}
+
+// applySubObjectDefaultValuesOnce descends into each sub-object at most once per path: an object that refers to
+// itself (directly or through others) would otherwise recurse until the stack overflows.
+func (o *ObjectSchema) applySubObjectDefaultValuesOnce(
+	propertyID string,
+	property *PropertySchema,
+	rawData map[string]any,
+	visiting map[Object]bool,
+) {
 	reflectedType := property.ReflectedType()
 	if reflectedType.Kind() == reflect.Pointer {
 		return
@@ -465,6 +476,11 @@ func (o *ObjectSchema) applySubObjectDefaultValues(propertyID string, property *
 	default:
 		return
 	}
+	if visiting[subObject] {
+		return
+	}
+	visiting[subObject] = true
+	defer delete(visiting, subObject)
 	data := map[string]any{}
 	if existing, ok := rawData[propertyID]; ok {
 		existingMap, isMap := existing.(map[string]any)
@@ -483,7 +499,7 @@ func (o *ObjectSchema) applySubObjectDefaultValues(propertyID string, property *
 		}
 	}
 	for subPropertyID, subProperty := range subObject.Properties() {
-		o.applySubObjectDefaultValues(subPropertyID, subProperty, data)
+		o.applySubObjectDefaultValuesOnce(subPropertyID, subProperty, data, visiting)
 	}
 	if len(data) != 0 {
 		rawData[propertyID] = data
